@@ -173,7 +173,15 @@ func (i *Interface) checkCache(key string) record.Record {
 	if err == nil {
 		r, ok := cacheVal.(record.Record)
 		if ok {
-			return r
+			// A cached record may have been deleted or may have expired since it
+			// was cached. Only serve records that are still valid.
+			r.Lock()
+			valid := r.Meta().CheckValidity()
+			r.Unlock()
+			if valid {
+				return r
+			}
+			i.cache.Remove(key)
 		}
 	}
 	return nil
